@@ -185,6 +185,14 @@ func (c *ExprCtx) near(t *rapid.T, pi pathInfo) model.AV {
 		return model.Null()
 	case r < c.IllTyped+40:
 		return pi.V.Clone()
+	case pi.V.T == "N" && r < c.IllTyped+55:
+		// a close neighbour: last significant digit one off
+		if d, ok := model.ParseDec(pi.V.S); ok {
+			n := d.Add(model.MustDec(rapid.SampledFrom([]string{"1", "-1", "0.001", "10"}).Draw(t, "nearDelta")))
+			if n.InRange() && (!c.Opts.FloatExact || model.FloatExact(n.Plain())) {
+				return model.Num(n.Plain())
+			}
+		}
 	}
 	return c.valueOfType(t, pi.V.T)
 }
